@@ -36,6 +36,7 @@ type Config struct {
 	StopOnFirst bool // stop exploring after the first candidate counterexample
 	KeepObs     bool // keep the observations of every completed path (2-safety comparisons across paths)
 	RunCmdInits bool // interpret the init#k functions of package cmd (cobra/pflag registration)
+	FreshInits  bool // re-initialise all package-level state before every path
 }
 
 type PathResult struct {
@@ -133,10 +134,28 @@ func newWorker(id int, cfg *Config) (*Worker, error) {
 	return w, nil
 }
 
+// freshState puts every package-level variable back to its zero value and
+// interprets the init functions again: paths that write to package-level
+// state (option variables, pflag's flag objects) then start from the state a
+// new process starts from, not from what the previous path of this worker left.
+func (w *Worker) freshState() {
+	i := w.interp
+	for g, cell := range i.globals {
+		*cell = zero(mustDeref(g.Type()))
+	}
+	w.runInits()
+}
+
 // runInits interprets the init functions of the configured packages, once
 // per worker, in concrete mode and tolerantly.
 func (w *Worker) runInits() {
 	i := w.interp
+	t0 := time.Now()
+	defer func() {
+		if os.Getenv("GOSX_INIT_TIME") != "" {
+			fmt.Fprintf(os.Stderr, "worker %d: inits took %v\n", w.id, time.Since(t0))
+		}
+	}()
 	for _, pkg := range w.cfg.InitPkgs {
 		fn := pkg.Func("init")
 		if fn == nil {
@@ -204,6 +223,9 @@ func (w *Worker) execute(ps *pathState, f func()) pathEnd {
 
 // RunPath executes the harness under the given decision prefix.
 func (w *Worker) RunPath(h *ssa.Function, prefix []Decision, concrete map[string]ModelVal) (*PathResult, [][]Decision) {
+	if w.cfg.FreshInits {
+		w.freshState()
+	}
 	ps := w.newPath(prefix)
 	if concrete != nil {
 		ps.isConcrete = true
